@@ -13,8 +13,8 @@ VERIF = os.path.dirname(os.path.dirname(os.path.abspath(__file__)))
 REPO = os.environ.get("VERIF_REPO", "/repo")
 SIM = os.path.join(VERIF, "sim")
 BUILD = os.path.join(VERIF, "build")
-EVID = os.path.join(VERIF, "evidence")
-REPLAYS = os.path.join(VERIF, "replays")
+EVID = os.environ.get("VERIF_EVID", os.path.join(VERIF, "evidence"))      # overridden when a scratch copy of the repo is checked
+REPLAYS = os.environ.get("VERIF_REPLAYS", os.path.join(VERIF, "replays"))
 KNOWN = os.path.join(VERIF, "KNOWN_FINDINGS.txt")
 NCPU = os.cpu_count() or 4
 
@@ -408,7 +408,8 @@ def check(prop, tier):
     for (key, variant), lst in sorted(by_key.items()):
         v = min(lst, key=lambda x: x["index"])
         kk = key_matches(key, known)
-        st, gkey, path, detail = gate(exes[variant], prop, tier, seed, v["index"], v["alt"], key, shrink=(kk is None))
+        n_shrunk = sum(1 for r in reported)  # minimise the first few new keys only: each minimisation may take up to 90 s
+        st, gkey, path, detail = gate(exes[variant], prop, tier, seed, v["index"], v["alt"], key, shrink=(kk is None and n_shrunk < 3))
         if st != "ok":
             harness_problem.append(f"gate {st} for key {key} (case {v['index']}): {detail}")
             continue
@@ -445,7 +446,7 @@ def check(prop, tier):
                 known_hit[kk] = known_hit.get(kk, 0) + 1
             continue
         kk0 = key_matches(pre, known) if pre else None
-        st, gkey, path, detail = gate(exes[variant], prop, tier, seed, idx, alt, pre, shrink=(kk0 is None))
+        st, gkey, path, detail = gate(exes[variant], prop, tier, seed, idx, alt, pre, shrink=(kk0 is None and len(reported) < 3))
         if st == "no-repro" and rc == "watchdog":
             notes.append(f"NOTE watchdog hit on case {idx} did not reproduce on replay (not a violation)")
             continue
